@@ -44,6 +44,23 @@ CLAIMS = {
              "proved only as 'a non-nil error'). maxSizeStats (buffer size heuristic) has a trusted range contract. The choice of ghost stream for NewBytesReader (the caller's bytes are the stream) is a trusted clause. "
              "Requests are limited to n <= 2^46. Two genuine defects were found and fixed (D10, D7). " + TRUST,
         design="5 C04"),
+    "C05": dict(
+        text="Proof for DefaultWriter and BytesWriter against a representation invariant that says which byte backs each unflushed stream position (the first parked buffer longer than the position, else the current buffer; "
+             "parked lengths non-decreasing, all allocations distinct): Malloc returns exactly the n bytes backing the next n positions without writing memory and keeps every earlier backing (growth parks the old buffer, never copies), "
+             "WriteBinary appends a copy of the payload, WrittenLen is the unflushed length; Flush hands the sink, in exactly one Write, the unflushed stream with the current content of every backing byte (loop invariant of the stitching loop), "
+             "then WrittenLen is 0; a sink error is returned, stored and returned by every later Malloc/WriteBinary/Flush with nothing changed; for a bytes writer the flushed buffer with that content is published through the caller's pointer. "
+             "All sizes, any number of growths (quantified invariants, no bound).",
+        note="The sink is the io.Writer interface contract with a ghost log (number of Writes, bytes of the last Write); concatenation over several flushes is the composition of per-Flush contracts, not a single theorem. "
+             "The Writer interface clauses about $lastchunk/$prevchunk/$nchunks are ghost definitions (history of handed-out chunks) and are not proved of DefaultWriter. maxSizeStats is trusted. Requests above 2^47 bytes are assumed away with allocation failure. " + TRUST,
+        design="5 C05"),
+    "C09": dict(
+        text="Proof by frames and ghost pool state (per byte region: live-from-pool / freed): Next/Peek/Skip/ReadBinary/acquire* of the reader write no byte below len(buf) (handed-out slices live there or in parked buffers, which are never written), "
+             "free nothing (mcache.Free is outside their frame) and park a replaced pool buffer; Release frees exactly the reader's own live pool regions (each once: distinctness invariant) and drops every reference to them; the caller's slice of a bytes reader is marked read-only "
+             "for every cap > 0 and then never freed, parked or written (fakeIOReader.Read assigns nothing). Writer: Malloc/WriteBinary never write handed-out bytes nor free; regions are distinct index ranges of one allocation or distinct allocations; Flush frees only own live pool regions and never for a bytes writer (cache disabled), "
+             "WriteBinary payloads are only read. mcache.Free requires a live pool region, so freeing caller memory or freeing twice cannot verify.",
+        note="Sequential ownership only: exclusivity of a region obtained from the pool (sync.Pool) and the behaviour of mcache are trusted extern contracts; 'never read or written again after recycling' is proved through the invariants (every reference the object keeps is to a non-freed region) rather than by a check on every memory access. "
+             "ReaderSkipDecoder (skip-decoder results) is not yet under contract. " + TRUST,
+        design="5 C09"),
     "C08": dict(
         text="Proof: the buffer skipper agrees with the grammar in both directions: success iff the grammar says a complete well-formed value is present, with the exact extent; "
              "truncation / unknown type, negative size and exhausted nesting budget (64) each yield an error; recursion is bounded (decreases maxdepth).",
